@@ -194,12 +194,11 @@ class Node(object):
 
     def add_namespace(self, prefix: str, namespace: str, nsmap_id: int = None):
         if nsmap_id is None:
+            # Never write into the current map: nodes outside of this
+            # subtree (parent, siblings) may share the same object
             nsmap_id = id(self.nsmap)
-        if prefix in self.nsmap:
-            self.nsmap[prefix] = namespace
-        else:
             self.nsmap = copy.deepcopy(self.nsmap)
-            self.nsmap[prefix] = namespace
+        self.nsmap[prefix] = namespace
 
         for child in self._children:
             if id(child.nsmap) == nsmap_id:
